@@ -30,5 +30,25 @@ pub trait Decl: Sync {
 
 pub fn read_vec(mfs: &[prometheus::proto::MetricFamily]) -> Vec<(Vec<(String, String)>, f64)> {
     let f = compat::family_of(&mfs[0]);
-    f.metrics.iter().map(|m| (m.labels.clone(), m.counter.or(m.gauge).or(m.hist.as_ref().map(|h| h.sum)).unwrap_or(f64::NAN))).collect()
+    f.metrics
+        .iter()
+        .map(|m| {
+            let v = match &m.hist {
+                // histogram children: the sum (every update observes a distinct power of two), or
+                // -infinity when count or bucket counts do not describe exactly those observations
+                Some(h) => {
+                    let ok = dsim::common::f2u(h.sum)
+                        .map(|set| h.count == set.count_ones() as u64 && h.buckets.iter().all(|(ub, cc)| *cc == (0..64).filter(|b| set & (1u64 << b) != 0 && ((1u64 << b) as f64) <= *ub).count() as u64))
+                        .unwrap_or(false);
+                    if ok {
+                        h.sum
+                    } else {
+                        f64::NEG_INFINITY
+                    }
+                }
+                None => m.counter.or(m.gauge).unwrap_or(f64::NAN),
+            };
+            (m.labels.clone(), v)
+        })
+        .collect()
 }
